@@ -987,6 +987,42 @@ pub fn gen_c13(seed: u64, _thorough: bool) -> Case {
     case
 }
 
+/// C13 with values at the edges of the integer types: the budget arithmetic must neither wrap nor trap, and the
+/// thinking time stays within the clock. The search is stopped by the GUI after a few polls.
+pub fn gen_c13_extreme(seed: u64) -> Case {
+    let mut rng = Rng::new(seed, 0x13e);
+    let mut case = Case::new("C13", "extreme-values", seed, Mode::Session);
+    case.params.policy = Policy::Np;
+    case.params.node_cost = 1_000_000;
+    case.params.fair = 8;
+    let big: [u64; 10] = [u32::MAX as u64 - 1, u32::MAX as u64, u32::MAX as u64 + 1, 1 << 53, (1 << 53) + 1, i64::MAX as u64, i64::MAX as u64 + 1, u64::MAX / 50, u64::MAX - 1, u64::MAX];
+    let val = |rng: &mut Rng| -> u64 {
+        match rng.below(3) {
+            0 => *rng.pick(&big),
+            1 => *rng.pick(BOUNDARY_MS),
+            _ => rng.log_uniform(1, 3_600_000),
+        }
+    };
+    let r = *rng.pick(&["startpos", "sicilian-b", "rook-endgame", "castle-only-b"]);
+    let root = ROOTS.iter().find(|x| x.name == r).unwrap();
+    case.push(GK::NewGame { root: root_cmd(root), pre: vec![] });
+    for _ in 0..rng.range(1, 3) {
+        case.push(GK::PosCur);
+        if rng.chance(1, 3) {
+            case.raw(format!("go movetime {}", val(&mut rng)));
+        } else {
+            case.push(GK::GoClock { own: val(&mut rng), own_inc: val(&mut rng), opp: val(&mut rng), opp_inc: val(&mut rng) });
+        }
+        case.push(GK::AfterPolls(rng.range(1, 40)));
+        case.raw("stop");
+        case.push(GK::AwaitBest);
+    }
+    case.raw("isready");
+    case.push(GK::AwaitReady);
+    case.raw("quit");
+    case
+}
+
 // ------------------------------------------------------------------------------------------ C19
 /// tags carry the item: c19root=<root cmd> c19pre=<moves> c19depth=<n>
 pub fn gen_c19(seed: u64, _thorough: bool) -> Case {
@@ -1329,7 +1365,13 @@ pub fn gen(prop: &str, seed: u64, thorough: bool) -> Case {
         },
         "C07" => gen_c07(seed, thorough),
         "C08" => gen_c08(seed, thorough),
-        "C13" => gen_c13(seed, thorough),
+        "C13" => {
+            if seed % 16 == 13 {
+                gen_c13_extreme(seed)
+            } else {
+                gen_c13(seed, thorough)
+            }
+        }
         "C19" => gen_c19(seed, thorough),
         "C15" => gen_c15(seed, thorough),
         _ => gen_session(prop, seed, 0, true),
